@@ -1,12 +1,16 @@
 """C11 — multithreaded compression.  The real zstdmt_compress.c + pool.c run with the ZSTD_pthread_* primitives interposed; the harness prints the
 protocol events (post / unpost / inline / serial / prod / fail / cksum / flush / retire) in the order the critical sections really happened, under
 perturbed and adversarial schedules; the Lean LTS (Model/MTProto.lean) replays every run: each observed event must be a transition of the model
-(trace inclusion).  Monitors: every frame decodes to the input, every call returns (hang detector), ThreadSanitizer reports nothing."""
+(trace inclusion).  Monitors: every frame decodes to the input, every call returns (hang detector), ThreadSanitizer reports nothing.
+Allocation faults (op `mtf`): the same harness with a ZSTD_customMem allocator that refuses one request (any thread / a worker / the caller / the worker of
+job j, request number swept) while another job is held back before its serial turn: the call returns an error or a frame that decodes, never blocks, the
+context is reusable, nothing stays allocated; the serial hand-over of every failed job is compared with the `fail` transition of the LTS."""
 import os, re
 import build, zv, frames
 
 ASSUMPTIONS = ["the OS scheduler is sampled (perturbed: random yields / sleeps at every primitive; adversarial presets: slow worker, slow caller, slow serial section), not enumerated: 'every schedule' is carried by the theorems over the LTS",
-               "job contents are an oracle (validated by decoding every frame); data races on memory the LTS does not track are visible to ThreadSanitizer on the sampled schedules only"]
+               "job contents are an oracle (validated by decoding every frame); data races on memory the LTS does not track are visible to ThreadSanitizer on the sampled schedules only",
+               "allocation faults: one refused request (or all from one on) per run, request number swept per thread class / per job; which job a numbered request belongs to depends on the schedule except in the per-job class; only ZSTD_customMem requests are refused"]
 
 
 def hx(variant="plain"):
@@ -47,6 +51,87 @@ def gen_op(rng, quick):
             line = line.replace(frames.pstr(p), frames.pstr(p2), 1)
         line += " " + frames.pstr(q)
     return line
+
+
+def mtf_op(workers, p, size, seed, ins, outs, perturb, pseed, who, nth, sticky=0, fframe=0, djob=-1, dus=0, flush=0):
+    return "mtf %d %s %d %d %s %s %d %d %s %d %d %d %d %d %d" % (workers, frames.pstr(p), size, seed, ins, outs, perturb, pseed, who, nth, sticky, fframe, djob, dus, flush)
+
+
+def gen_fault_ops(rng, quick):
+    """allocation faults under worker threads.  (1) directed at the hand-over of the serial section: the worker of job j loses its k-th request (context from
+    the pool, sequence buffer with long-distance matching, destination buffer, workspace) while an OLDER job has not had its serial turn yet (job 0 or job j-1 is
+    held where it asks for its turn until the failed job has left; schedule presets 5 / 4 / 1 on top) and younger jobs are posted; (2) sweep of the request number
+    over all requests of the frame, of the workers, of the caller, one refusal or memory exhausted from then on, 1..4 workers, several job sizes, inputs several
+    jobs long, perturbed schedules; (3) long-distance matching with an input longer than the round buffer: a job fails, the caller goes on loading input and
+    wraps the buffer while younger jobs still take their serial turn (the window of the long-distance matcher must keep the caller off, and must not keep it
+    off for ever)."""
+    d_ops, s_ops, l_ops = [], [], []
+    base = [({100: 1, 401: 524288}, 2400000), ({100: 1, 401: 524288, 201: 1}, 2900000), ({100: 1, 401: 524288, 160: 1, 101: 20}, 2700000), ({100: 3, 401: 1048576, 201: 1}, 4400000)]
+    for w in (2, 3, 4):
+        for j in (0, 1, 2, 3):
+            for k in (0, 1, 2, 3):
+                p, size = base[(w + j + k) % 3] if k < 3 else base[2]
+                if not quick or (w + j + k) % 4 == 0:
+                    p, size = rng.choice(base)
+                size += rng.randrange(100000)
+                scheds = [(0, j - 1)] if j else [(0, -1)]
+                if j: scheds.append((rng.choice([5, 1, 4]), 0))
+                if not quick: scheds += [(1, j - 1), (4, -1), (5, -1), (2, 0)]
+                for perturb, djob in scheds:
+                    ins = rng.choice(["300000", "1000000", str(size), "70000,600000"]); outs = rng.choice(["8000000", "8000000", "60000"])
+                    d_ops.append(mtf_op(w, p, size, rng.randrange(1 << 30), ins, outs, perturb, rng.randrange(1 << 30), "J%d" % j, k, rng.choice([0, 0, 1]), 0, djob, 150000 if djob >= 0 else 0, 0))
+    cfgs = [(1, base[0]), (2, base[2]), (3, base[1]), (4, base[2]), (3, base[3]), (4, base[0])]
+    for w, (p, size) in (cfgs[:4] if quick else cfgs):
+        njobs = size // p[401] + 1
+        sweep = [("A", k) for k in range(0, 18 + 3 * njobs)] + [("W", k) for k in range(0, 3 * njobs + 2)] + [("C", k) for k in range(0, 18)]
+        if quick:
+            sweep = [x for x in sweep if x[0] == "W"] + rng.sample([x for x in sweep if x[0] == "A"], 16) + rng.sample([x for x in sweep if x[0] == "C"], 5)
+        for who, k in sweep:
+            perturb = rng.choice([0, 1, 1, 2, 4, 5, 5]); dj = rng.choice([-1, -1, 0, 1, 2])
+            s_ops.append(mtf_op(w, p, size + rng.randrange(200000), rng.randrange(1 << 30), rng.choice(["300000", "1000000", "6000000", "100000,700000"]), rng.choice(["8000000", "8000000", "50000"]),
+                                perturb, rng.randrange(1 << 30), who, k, rng.choice([0, 1]), rng.choice([0, 0, 0, 1]), dj, rng.choice([20000, 100000]) if dj >= 0 else 0, rng.choice([0, 0, 0, 3])))
+    ldm = {100: 1, 101: 20, 160: 1, 401: 524288}
+    for w, lo in ((2, 2800000), (3, 3400000), (4, 3900000)):
+        for nth in range(2, 12):
+            for sticky in (0, 1):
+                if quick and (nth + sticky + w) % 2: continue
+                l_ops.append(mtf_op(w, ldm if rng.random() < 0.7 else {**ldm, 201: 1}, lo + rng.randrange(400000), rng.randrange(1 << 30), rng.choice(["300000", "300000", "100000,700000"]), rng.choice(["50000", "50000", "8000000"]),
+                                    rng.choice([1, 1, 0, 4]), rng.randrange(1 << 30), "W", nth, sticky, 0, rng.choice([-1, -1, 0, 1]), 50000, 0))
+    # directed: job w-1.. held before its serial turn, the next job fails, the one after takes a real turn (long-distance matcher runs, window published again),
+    # the older job then finds the counter beyond its id; the caller meanwhile reaches the end of the round buffer
+    for w, lo in ((2, 2850000), (3, 3500000), (4, 4200000)):
+        for k in (0, 1, 2):
+            for rep in range(1 if quick else 3):
+                l_ops.append(mtf_op(w, ldm if (k + rep) % 2 == 0 else {**ldm, 201: 1}, lo + rng.randrange(300000), rng.randrange(1 << 30), rng.choice(["300000", "1000000", str(lo + 300000)]), rng.choice(["50000", "8000000"]),
+                                    rng.choice([0, 0, 1, 4]), rng.randrange(1 << 30), "J%d" % w, k, 0, 0, w - 1, 200000, 0))
+    return d_ops, s_ops, l_ops
+
+
+def fault_family(ctx, ops, stats):
+    """runs the `mtf` ops in the plain build; returns (event logs for the model, their ops)"""
+    logs, meta = [], []
+    perm = [i for r in range(16) for i in range(r, len(ops), 16)]        # neighbours in the list (same job, same schedule) go to different runner threads
+    ops = [ops[i] for i in perm]
+    for op, (rc, out, err) in zip(ops, run_all(hx("plain"), ops, timeout=200)):
+        lines = out.split("\n")
+        endl = [l for l in lines if l.startswith("end ")]
+        evs = [l for l in lines if l and not l.startswith("end ")]
+        efin = [l for l in evs if l.startswith("efin ")]
+        if rc != 0 or not endl:
+            hang = (endl and "hang" in endl[-1]) or rc == -999
+            ctx.violation("multithreaded compression with a refused allocation: %s: %s | %s" % ("a call never returned (blocked)" if hang else "crash (exit %d)" % rc, op, (endl[-1] if endl else err[-300:])),
+                          dict(kind="monitor", op=op, stderr=err[-1500:], serial_handover_of_failed_jobs=efin, tail=lines[-40:]))
+            stats["fault_hangs" if hang else "fault_crashes"] += 1
+            if hang and efin:
+                logs.append(";".join(efin)); meta.append(op)
+            continue
+        if not endl[-1].startswith("end ok"):
+            ctx.violation("multithreaded compression with a refused allocation: %s -> %s" % (op, endl[-1]), dict(kind="monitor", op=op, result=endl[-1], tail=lines[-40:]))
+            continue
+        m = re.search(r"frames=(\d+) .* fault=(\d) res=(\S+)", endl[-1])
+        stats["frames"] += int(m.group(1)); stats["faults_fired"] += int(m.group(2)); stats["fault_errors_returned"] += int(m.group(3) != "ok"); stats["events"] += len(evs)
+        logs.append(";".join(evs)); meta.append(op)
+    return logs, meta
 
 
 def run_all(exe, ops, timeout=900, env=None):
@@ -92,6 +177,13 @@ def correspondence(ctx):
         stats["events"] += len(evs)
         m = re.search(r"frames=(\d+)", endl[-1]); stats["frames"] += int(m.group(1))
         logs.append(";".join(evs)); meta.append(op)
+    # allocation faults under worker threads: monitors in the harness, traces (cut where the fault fires) + serial hand-over of failed jobs replayed by the model
+    stats.update(faults_fired=0, fault_errors_returned=0, fault_hangs=0, fault_crashes=0)
+    frng = zv.Rng(ctx.seed * 7919 + 1311)        # own stream: the families below keep the inputs they had
+    dir_ops, sw_ops, ldm_ops = gen_fault_ops(frng, quick)
+    fops = dir_ops + sw_ops + ldm_ops
+    flogs, fmeta = fault_family(ctx, fops, stats)
+    logs += flogs; meta += fmeta
     if logs:
         rcm, mout, merr = zv.run([zv.driver_exe(), "mtproto"], "\n".join(logs) + "\n", timeout=1200)
         mo = mout.split("\n")
@@ -135,9 +227,18 @@ def correspondence(ctx):
             ctx.violation("sanitizer report / crash in the ASan+UBSan build: %s -> %s" % (op, err[-500:]), dict(kind="monitor-san", op=op, stderr=err[-3000:]))
         elif "end FAIL" in out and "hang" not in out:
             ctx.violation("multithreaded compression failed in the ASan+UBSan build: %s -> %s" % (op, out.strip().split("\n")[-1]), dict(kind="monitor-san", op=op))
+    # allocation faults in the ASan+UBSan build: the directed family (first schedule of each) and a sample of the sweep
+    fsops = dir_ops[::2 if quick else 1] + (frng.sample(sw_ops, 20) + frng.sample(ldm_ops, 10) if quick else sw_ops + ldm_ops)
+    for op, (rc, out, err) in zip(fsops, run_all(hx_san, fsops, timeout=400)):
+        last = out.strip().split("\n")[-1] if out.strip() else ""
+        if rc != 0 or not last.startswith("end ok"):
+            ctx.violation("ASan+UBSan build, multithreaded compression with a refused allocation: %s: %s -> %s" % ("a call never returned" if "end FAIL hang" in out else "sanitizer report / crash / failure", op, last if last.startswith("end ") else err[-500:]),
+                          dict(kind="monitor-san", op=op, stderr=err[-3000:], result=last))
     # ThreadSanitizer on a sample (no interposition-dependent behaviour: same harness, tsan variant)
     tops = ops[:14] if quick else ops[:400]
     tops = [o for o in tops if int(o.split()[3]) <= 3000000][:10 if quick else 300]
+    # a worker / the caller is refused memory while other jobs run; with long-distance matching: while the caller wraps the round buffer
+    tops += dir_ops[1::6 if quick else 2] + frng.sample(sw_ops, 6 if quick else 100) + (frng.sample(ldm_ops, 12) if quick else ldm_ops)
     env = dict(os.environ, TSAN_OPTIONS="halt_on_error=1 second_deadlock_stack=1")
     rest = run_all(hx("tsan"), tops, timeout=1500, env=env)
     for op, (rc, out, err) in zip(tops, rest):
@@ -145,14 +246,18 @@ def correspondence(ctx):
             if "end FAIL hang" in out and "ThreadSanitizer" not in err:
                 continue       # the TSan build is ~10x slower: the 120 s limit is not a verdict here
             ctx.violation("ThreadSanitizer / crash in the TSan build: %s -> %s" % (op, err[-400:]), dict(kind="monitor-tsan", op=op, stderr=err[-3000:]))
-    return dict(evaluations=len(ops) + len(tops), distinct_nontrivial=len(set(ops)),
+    return dict(evaluations=len(ops) + len(tops) + len(fops) + len(fsops), distinct_nontrivial=len(set(ops)) + len(set(fops)),
                 rule="one evaluation = one multi-frame run (1..6 workers, job sizes, overlap, LDM, rsyncable, checksum, mid-frame level change, aborted first frame, worker-count change between frames, 1-byte..8 MB in/out windows) under one schedule preset; "
-                     "every run's event list replayed by the Lean LTS; first %d runs repeated under ThreadSanitizer" % len(tops),
+                     "every run's event list replayed by the Lean LTS; first %d runs repeated under ThreadSanitizer; %d runs of three frames with one allocator request refused (request number swept per thread class / per job, older job held back before its serial turn)" % (len(tops), len(fops)),
+                allocation_fault_runs=len(fops), allocation_faults_fired=stats["faults_fired"], allocation_fault_errors_returned=stats["fault_errors_returned"],
                 samples=[dict(op=ops[0], verdict=(mo[0] if logs else ""))], frames_completed=stats["frames"], protocol_events_replayed=stats["events"], runs_accepted_by_model=stats.get("accepted", 0))
 
 
 def replay(ctx, data):
     op = data["op"]
+    if data.get("kind") == "monitor-san":
+        rc, out, err = zv.run([build.link("zvh_mt", ["zvh_mt.c"], "san", exclude=("pool.c", "zstdmt_compress.c"), extra=["-DZV_NOTRACE"])], op + "\n", timeout=900)
+        return dict(violates=rc != 0 or "end ok" not in out, result=out.strip().split("\n")[-1:], stderr=err[-1500:])
     rc, out, err = zv.run([hx("plain")], op + "\n", timeout=900)
     lines = out.split("\n")
     endl = [l for l in lines if l.startswith("end ")]
